@@ -1031,7 +1031,28 @@ class DefaultCycles(common.Suite):
             mc.validate_simulation()
             for _ in mc.step():
                 pass
-        return {"cycles": int(mc.max_cycles), "attempts": len(attempts)}
+            out = {"cycles": int(mc.max_cycles), "attempts": len(attempts)}
+            if cls == "GrandCanonical":
+                # the number of cycles is a setting, not a function of the state: accepted insertions and deletions (the
+                # atom count changes) leave it where the constructor — or a later assignment — put it
+                from quansino.moves.exchange import ExchangeMove
+                from quansino.operations.displacement import Translation
+
+                del mc.moves["probe"]
+                mc.chemical_potential = 5.0 if case["seed"] % 2 else -5.0   # every insertion / every deletion accepted
+                mc.add_move(ExchangeMove(np.arange(len(atoms)), Translation()), name="x")
+                want = int(mc.max_cycles)
+                if case["seed"] % 3 == 0:
+                    want = int(mc.max_cycles) + 2
+                    mc.max_cycles = want
+                per_step, n_before = [], len(atoms)
+                for _ in range(3):
+                    for _ in mc.step():
+                        pass
+                    per_step.append(len(mc.move_history))
+                out["later"] = {"want": want, "per_step": per_step, "cycles_after": int(mc.max_cycles),
+                                "natoms": [n_before, len(atoms)]}
+        return out
 
     def model_lines(self, case):
         if case["cls"] == "MonteCarlo":
@@ -1053,6 +1074,11 @@ class DefaultCycles(common.Suite):
                         f"{'left out' if case['given'] is None else case['given']}: {obs['cycles']} cycles per step"))
         if obs["attempts"] != obs["cycles"]:
             out.append(("default-cycles:attempts", f"{obs['attempts']} attempts in a step of {obs['cycles']} cycles"))
+        lt = obs.get("later")
+        if lt and (lt["cycles_after"] != lt["want"] or any(n != lt["want"] for n in lt["per_step"])):
+            out.append(("default-cycles:cycles-follow-the-state",
+                        f"{case['cls']} on {case['natoms']} atoms (now {lt['natoms'][1]}): max_cycles {lt['want']} configured, "
+                        f"{lt['per_step']} attempts per step, max_cycles afterwards {lt['cycles_after']}"))
         return out
 
     def classify(self, case, obs):
